@@ -37,6 +37,7 @@
 #include <xalanc/Include/XalanVector.hpp>
 #include <xalanc/Include/XalanList.hpp>
 #include <xalanc/Include/XalanDeque.hpp>
+#include <xalanc/Include/XalanMemMgrAutoPtr.hpp>
 #include <xalanc/PlatformSupport/ArenaBlockBase.hpp>
 #include <xalanc/PlatformSupport/ReusableArenaBlock.hpp>
 #include <xalanc/PlatformSupport/ArenaAllocator.hpp>
@@ -136,8 +137,26 @@ struct PeekBlock : public RBlock
     static long next(RBlock& b) { return static_cast<PeekBlock&>(b).m_nextFreeBlock; }
 };
 
+// the created object of the create idioms: XalanConstruct of a type whose constructor allocates one block
+struct Thing
+{
+    void* sub; xercesc::MemoryManager& mm;
+    Thing(xercesc::MemoryManager& m) : sub(m.allocate(16)), mm(m) {}
+    ~Thing() { mm.deallocate(sub); }
+};
+
+static Thing* createThing(xercesc::MemoryManager& m)
+{
+    Thing* t = 0;
+    return XalanConstruct(m, t, m);
+}
+
+typedef XalanMemMgrAutoPtr<Thing> ThingPtr;
+
 struct State
 {
+    ThingPtr ap[2];
+    std::vector<Thing*> loose;
     RBlock* arena = 0;
     std::vector<bool> isObj;
     LDeque* deque = 0;
@@ -159,6 +178,7 @@ struct State
         deque = 0;
         bvec = new BVec(*fm);
         ra = 0; raObjs.clear();
+        ap[0].release(); ap[1].release(); loose.clear();      // abandoned with their manager
     }
 };
 
@@ -184,6 +204,20 @@ static std::string showVec(State& s)
     std::ostringstream o;
     o << s.vec->size() << " " << s.vec->capacity() << " :";
     for (size_t i = 0; i < s.vec->size(); ++i) o << " " << (*s.vec)[i];
+    return o.str();
+}
+
+static std::string showAP(State& s)
+{
+    std::ostringstream o;
+    for (int q = 0; q < 2; ++q)
+    {
+        o << "p" << q << "=";
+        if (s.ap[q].get()) o << s.fm->idOf(s.ap[q].get()); else o << "-";
+        o << " ";
+    }
+    o << "loose=";
+    for (size_t q = 0; q < s.loose.size(); ++q) o << s.fm->idOf(s.loose[q]) << ",";
     return o.str();
 }
 
@@ -258,20 +292,6 @@ static std::string showArena(State& s, bool full)
     o << "cnt=" << PeekBlock::count(*s.arena) << " pend=" << (PeekBlock::first(*s.arena) != PeekBlock::next(*s.arena) ? 1 : 0)
       << " ff=" << PeekBlock::first(*s.arena);
     return o.str();
-}
-
-// the created object of the create idioms: XalanConstruct of a type whose constructor allocates one block
-struct Thing
-{
-    void* sub; xercesc::MemoryManager& mm;
-    Thing(xercesc::MemoryManager& m) : sub(m.allocate(16)), mm(m) {}
-    ~Thing() { mm.deallocate(sub); }
-};
-
-static Thing* createThing(xercesc::MemoryManager& m)
-{
-    Thing* t = 0;
-    return XalanConstruct(m, t, m);
 }
 
 // true when running `f` in a forked child ends normally
@@ -385,6 +405,26 @@ int main()
                 else out = "bad";
                 if (out == "ub") dead = true;
                 std::cout << tail(s, out, showVec(s)) << "\n";
+            }
+            else if (a == "ap")
+            {
+                long y = 0; in >> y;
+                size_t i = x == 0 ? 0 : 1, j = y == 0 ? 0 : 1;
+                if (b == "make") { Thing* t = createThing(*s.fm); s.ap[i].reset(s.fm, t); }
+                else if (b == "move") { s.ap[j] = s.ap[i]; }
+                else if (b == "release") { Thing* t = s.ap[i].releasePtr(); if (t) s.loose.insert(s.loose.begin(), t); }
+                else if (b == "reset") s.ap[i].reset();
+                else if (b == "destroy")
+                {
+                    s.ap[0].reset(); s.ap[1].reset();
+                    for (size_t q = 0; q < s.loose.size(); ++q) XalanDestroy(*s.fm, s.loose[q]);
+                    s.loose.clear();
+                    std::cout << tail(s, out, "destroyed") << "\n";
+                    continue;
+                }
+                else out = "bad";
+                std::string sh = showAP(s);
+                std::cout << tail(s, out, sh) << "\n";
             }
             else if (a == "ra")
             {
@@ -517,7 +557,7 @@ int main()
         }
         catch (const Refused&)
         {
-            std::cout << tail(s, "oom", a == "l" ? showList(s) : a == "a" ? (s.arena ? showArena(s, false) : std::string("none")) : a == "d" ? showDeque(s) : a == "bv" ? showBVec(s) : a == "ra" ? (s.ra ? showRA(s) : std::string("")) : showVec(s)) << "\n";
+            std::cout << tail(s, "oom", a == "l" ? showList(s) : a == "a" ? (s.arena ? showArena(s, false) : std::string("none")) : a == "d" ? showDeque(s) : a == "bv" ? showBVec(s) : a == "ra" ? (s.ra ? showRA(s) : std::string("")) : a == "ap" ? showAP(s) : showVec(s)) << "\n";
         }
     }
     return 0;
